@@ -2,7 +2,10 @@ import MosnVerif.Drive.Util
 import MosnVerif.Model.FrameChk
 import MosnVerif.Model.FrameSpec
 import MosnVerif.Model.FrameH2
+import MosnVerif.Model.FrameH2Err
 import MosnVerif.Model.FrameHpack
+import MosnVerif.Model.HpackEmit
+import MosnVerif.Model.H2Lock
 /-! driver of C08 (malformed input contained): see `run` for the case kinds. Core Lean only. -/
 namespace MosnVerif.Drive.C08
 open MosnVerif.Drive MosnVerif.Model.Framing MosnVerif.Model.FrameBytes MosnVerif.Model.FrameChk MosnVerif.Model.KVBlock
@@ -62,7 +65,11 @@ def h2dec (bytes : String) (impl : List String) : String :=
   | some b, [o] =>
     let m (p g : Bool) := showStep (MosnVerif.Model.FrameH2.h2Step MosnVerif.Gen.FrameConsts.http2_defaultMaxReadFrameSize
       (fun _ => p) (fun _ => g) true b)
-    let allowed := dedup [m true true, m true false, m false true]
+    -- a failing ReadFrame consumes nothing, or (stream errors) the complete frame / header-block group
+    let errs := (MosnVerif.Model.FrameH2.errDrains MosnVerif.Gen.FrameConsts.http2_defaultMaxReadFrameSize (fun _ => true) b).map
+      (fun n => s!"error:{n}")
+    let allowed := dedup ([m true true, m true false, m false true] ++
+      (if (m true false).startsWith "error" || (m false true).startsWith "error" then errs else []))
     let agree := allowed.contains o
     let spec := match parseOutcome o with
       | some oc => specContained b.length oc
@@ -84,12 +91,118 @@ def hpackK (maxs bytes : String) (impl : List String) : String :=
       s!"{if o == m then "A" else "D"} {if spec then "S" else "V"} {m}"
   | _, _, _ => "E E bad-case"
 
+section hpackx
+open MosnVerif.Model.HpackTable MosnVerif.Model.HpackEmit
+
+def fieldTok (f : Field) : String := s!"f{if f.sensitive then "1" else "0"}:{hex f.name}:{hex f.value}"
+def fieldsTok (l : List Field) : String := if l.isEmpty then "-" else joinWith "+" (l.map fieldTok)
+
+/-- decode the blocks one after the other on ONE decoder (table lookups through the regenerated, checked `Decoder.at`);
+a failed block ends the run (the decoder is not used after an error) -/
+def hpackxRun (d : DecE) : List Bytes → List String
+  | [] => []
+  | b :: r =>
+    match d.decodeFullP codePolicy (fun (_ : Unit) _ => ((), false)) () b with
+    | .ok (d', _, fs) => s!"ok:{fieldsTok fs}" :: hpackxRun d' r
+    | .error .panic => ["panic"]
+    | .error (.dec _) => ["err"]
+
+/-- `hpackx <maxStrLen> <block>,<block>… => <ok:fields | err | panic | hang>,…`: the real `hpack.Decoder.DecodeFull` on
+a sequence of header blocks on one decoder (indexed fields, literals with name indices, Huffman strings, size
+updates): complete model (Model/HpackTable + HpackEmit + checked `at`), outputs must agree; predicate: no panic, no hang -/
+def hpackX (maxs blocks : String) (impl : List String) : String :=
+  match maxs.toNat?, (blocks.splitOn ",").mapM unhex, impl with
+  | some mx, some bs, [o] =>
+    let outs := o.splitOn ","
+    let spec := !(outs.contains "panic") && !(outs.contains "hang")
+    let d0 : DecE := { base := { Dec.new 4096 with maxStrLen := mx }, emit := true }
+    let m := joinWith "," (hpackxRun d0 bs)
+    s!"{if m == o then "A" else "D"} {if spec then "S" else "V"} {m}"
+  | _, _, _ => "E E bad-case"
+end hpackx
+
+section h2up
+open MosnVerif.Gen.H2Lock MosnVerif.Model.H2Lock
+
+/-- what the frames of the upstream peer mean for the in-flight request (hand-written from MClientConn.HandleFrame /
+processData / processHeaders and the framer): `some true` = complete response, `some false` = stream error / reset,
+`none` = still waiting. `sawH` = response HEADERS (without END_STREAM) seen. -/
+def upstreamVerdict (method : String) : Bool → List String → Option Bool
+  | _, [] => none
+  | sawH, t :: r =>
+    if t == "P" then upstreamVerdict method sawH r
+    else if t == "W0" then some false
+    else if t.startsWith "W" then upstreamVerdict method sawH r
+    else if t.startsWith "R" then some false
+    else if t == "Hbad" then some false
+    else if t == "H" then (if sawH then some false else upstreamVerdict method true r)
+    else if t == "He" then some true
+    else if t == "D" || t == "De" then
+      if !sawH then some false               -- DATA before the response HEADERS
+      else if method == "HEAD" then some false  -- DATA on a HEAD request
+      else if t == "De" then some true else upstreamVerdict method sawH r
+    else none
+
+/-- run goroutine 0 as far as it gets, then goroutine 1 (operations are counted generously) -/
+def runBoth (s : Sys) : Sys :=
+  let n := s.remaining + 2
+  (s.run (List.replicate n 0)).run (List.replicate n 1)
+
+/-- `h2up <method> <frames> => <r1> <r2> <same|new|none>`: the real HTTP/2 client stream connection against a raw-frame
+upstream peer. Model: the frames decide response / stream error; on a stream error the connection's read goroutine walks
+the regenerated path of clientStreamConnection.handleError (StreamError, stream registered) while the second request's
+goroutine has to get through clientStream.endStream — both against the one connection mutex.  Predicate: both requests
+terminate. -/
+def h2up (method frames : String) (impl : List String) : String :=
+  match impl with
+  | [r1, r2, same] =>
+    let spec := !(r1.startsWith "hang") && !(r2.startsWith "hang")
+    let toks := frames.splitOn "+"
+    let m : String :=
+      if toks.getLast? == some "C" && (upstreamVerdict method false toks.dropLast).isNone then
+        -- the peer closes the connection under the request: the read goroutine delivers the close event to
+        -- clientStreamConnection.OnEvent and then to stream.client.OnEvent -> Reset, which resets the stream while it
+        -- HOLDS the mutex; request 2 goes to a fresh connection (its own mutex)
+        match clientPaths.find? (fun p => p.fn == "OnEvent"),
+              clientPaths.find? (fun p => p.fn == "Reset" && p.conds.any (fun c => c.endsWith " x1")) with
+        | some po, some pr =>
+          let s := runBoth (Sys.start [flatten clientAcquires po.acts ++ flatten clientAcquires pr.acts, []])
+          let done0 : Bool := (s.threads[0]?.map Thread.done).getD false
+          s!"{if done0 then "reset:ConnectionTermination" else "hang"} resp new"
+        | _, _ => "nopath"
+      else
+      match upstreamVerdict method false toks with
+      | none => "waiting"
+      | some true => "resp resp same"
+      | some false =>
+        match findPath clientPaths "handleError" ["case http2.StreamError", "s != nil"],
+              clientPaths.find? (fun p => p.fn == "endStream" && p.conds.all (· == "err == nil")) with
+        | some pe, some ps =>
+          let s := runBoth (Sys.start [flatten clientAcquires pe.acts, flatten clientAcquires ps.acts])
+          let done (i : Nat) : Bool := match s.threads[i]? with
+            | some t => t.done
+            | none => false
+          -- a second request that never gets through endStream never reaches the peer (`none`)
+          s!"{if done 0 then "reset:StreamRemoteReset" else "hang"} {if done 1 then "resp same" else "hang none"}"
+        | _, _ => "nopath"
+    -- a POST body is still being written when the stream is reset: the request may learn of it from the read
+    -- goroutine (StreamRemoteReset) or from its own failing write (StreamLocalReset); the reason is not compared then
+    let kind (r : String) : String := if method == "POST" && r.startsWith "reset:" then "reset" else r
+    let agree := match m.splitOn " " with
+      | [m1, m2, m3] => kind m1 == kind r1 && m2 == r2 && m3 == same
+      | _ => false
+    s!"{if agree then "A" else "D"} {if spec then "S" else "V"} {m}"
+  | _ => "E E bad-case"
+end h2up
+
 def run (caseToks impl : List String) : String :=
   match caseToks with
   | ["dec", proto, bytes] => dec proto bytes impl
   | ["kv", bytes] => kv bytes impl
   | ["h2dec", bytes] => h2dec bytes impl
   | ["hpack", mx, bytes] => hpackK mx bytes impl
+  | ["hpackx", mx, blocks] => hpackX mx blocks impl
+  | ["h2up", method, frames] => h2up method frames impl
   | ["contain", _, _] =>
     -- containment run (support): the probe client must have been answered after this malformed connection
     (match impl with
